@@ -143,4 +143,251 @@ theorem DataInv.same {s s' : State} (h : DataInv s) (hb : s'.blocks = s.blocks) 
     rw [this] at hlen
     exact List.eq_nil_of_length_eq_zero (by simpa using hlen)
 
+/-- What a step inside the coder->mutex critical section of read_output_and_wait leaves alone. -/
+structure RowFrame (s s' : State) : Prop where
+  blocks : s'.blocks = s.blocks
+  cfg : s'.cfg = s.cfg
+  cur : s'.cur = s.cur
+  pc : s'.pc = s.pc
+  seq : s'.seq = s.seq
+  directPos : s'.directPos = s.directPos
+  thr : s'.thr = s.thr
+  threadsFree : s'.threadsFree = s.threadsFree
+  threadError : s'.threadError = s.threadError
+  returned : s'.returned = s.returned
+  memInUse : s'.memInUse = s.memInUse
+  wlen : s'.workers.length = s.workers.length
+  wsame : ∀ j, WSame (getW s j) (getW s' j)
+
+theorem RowFrame.refl (s : State) : RowFrame s s :=
+  ⟨rfl, rfl, rfl, rfl, rfl, rfl, rfl, rfl, rfl, rfl, rfl, rfl, fun j => WSame.refl _⟩
+
+theorem RowFrame.trans {a b c : State} (h1 : RowFrame a b) (h2 : RowFrame b c) : RowFrame a c :=
+  ⟨h2.blocks.trans h1.blocks, h2.cfg.trans h1.cfg, h2.cur.trans h1.cur, h2.pc.trans h1.pc, h2.seq.trans h1.seq,
+   h2.directPos.trans h1.directPos, h2.thr.trans h1.thr, h2.threadsFree.trans h1.threadsFree,
+   h2.threadError.trans h1.threadError, h2.returned.trans h1.returned, h2.memInUse.trans h1.memInUse,
+   h2.wlen.trans h1.wlen, fun j => (h1.wsame j).trans (h2.wsame j)⟩
+
+theorem getW_setW_any (s : State) (i j : Nat) (w : Worker) :
+    getW (MtDec.setW s i w) j = if i = j ∧ i < s.workers.length then w else getW s j := by
+  by_cases hi : i < s.workers.length
+  · rw [getW_setW s i j w hi]; simp [hi]
+  · have : MtDec.setW s i w = s := by
+      simp only [MtDec.setW]
+      rw [List.set_eq_of_length_le (by omega)]
+    rw [this]; simp [hi]
+
+theorem enablePartialHead_spec (s : State) :
+    RowFrame s (enablePartialHead s) ∧ QSame s.queue (enablePartialHead s).queue ∧
+    (enablePartialHead s).outRev = s.outRev ∧ (enablePartialHead s).readPos = s.readPos ∧
+    (enablePartialHead s).outCap = s.outCap := by
+  unfold enablePartialHead
+  split
+  · rename_i h t hq
+    split
+    · split
+      · rename_i w hw
+        refine ⟨⟨rfl, rfl, rfl, rfl, rfl, rfl, rfl, rfl, rfl, rfl, rfl, by simp, ?_⟩, ?_, rfl, rfl, rfl⟩
+        · intro j
+          show WSame (getW s j) (getW (MtDec.setW s w _) j)
+          rw [getW_setW_any]
+          split
+          · rename_i hj; obtain ⟨rfl, _⟩ := hj
+            exact ⟨rfl, rfl, rfl, rfl, rfl, rfl, rfl, rfl, rfl, rfl⟩
+          · exact WSame.refl _
+        · show QSame s.queue ({ h with worker := none } :: t)
+          rw [hq]; exact ⟨rfl, rfl, rfl, rfl, rfl, QSame.refl t⟩
+      · exact ⟨RowFrame.refl s, QSame.refl _, rfl, rfl, rfl⟩
+    · exact ⟨RowFrame.refl s, QSame.refl _, rfl, rfl, rfl⟩
+  · exact ⟨RowFrame.refl s, QSame.refl _, rfl, rfl, rfl⟩
+
+theorem DataInv.enablePartialHead {s : State} (h : DataInv s) : DataInv (enablePartialHead s) := by
+  obtain ⟨f, q, o, r, _⟩ := enablePartialHead_spec s
+  exact h.same f.blocks f.cur q o r f.directPos f.wlen f.wsame f.threadsFree
+
+/-- A failed Block has just been removed from the head of the queue: everything it produced has been delivered, so the
+    delivered bytes and its verdict are exactly the single-threaded result. -/
+structure BadPop (s' : State) (r : Ret) : Prop where
+  ne : r ≠ END
+  nok : r ≠ OK ∧ r ≠ TIMED_OUT
+  final : (s'.delivered, r) = stRun s'.blocks
+
+/-- lzma_outq_read copies from the head without removing it. -/
+def readAdv (s : State) (h : Outbuf) : State :=
+  let n := min s.outCap (h.pos - s.readPos)
+  { s with outRev := ((blk s h.blk).data.drop s.readPos).take n :: s.outRev, readPos := s.readPos + n,
+           outCap := s.outCap - n }
+
+theorem readAdv_frame (s : State) (h : Outbuf) : RowFrame s (readAdv s h) :=
+  ⟨rfl, rfl, rfl, rfl, rfl, rfl, rfl, rfl, rfl, rfl, rfl, rfl, fun _ => WSame.refl _⟩
+
+theorem DataInv.readAdv {s : State} (h : DataInv s) (a : Outbuf) (t : List Outbuf) (hq : s.queue = a :: t) :
+    DataInv (readAdv s a) := by
+  have hr := h.readLe
+  rw [hq] at hr
+  have hn : s.readPos + min s.outCap (a.pos - s.readPos) ≤ a.pos := by omega
+  refine { wf := h.wf, curLe := h.curLe, lenLe := h.lenLe, consec := h.consec, good := h.good, deliv := ?_,
+           posLe := h.posLe, readLe := ?_, fin := h.fin,
+           wk := fun i hi => WInv.congr (s := s) rfl rfl (h.wk i hi), distinct := h.distinct, free := h.free,
+           freeNodup := h.freeNodup, dirLe := h.dirLe, dirQ := h.dirQ }
+  · have e0 : (MtDec.readAdv s a).delivered = s.delivered ++
+        ((blk s a.blk).data.drop s.readPos).take (min s.outCap (a.pos - s.readPos)) := delivered_push s _
+    have e1 : partialOut s = (blk s a.blk).data.take s.readPos := by simp [partialOut, hq]
+    have e2 : partialOut (MtDec.readAdv s a) =
+        (blk s a.blk).data.take (s.readPos + min s.outCap (a.pos - s.readPos)) := by
+      simp [partialOut, MtDec.readAdv, hq, blk]
+    have e3 : hd (MtDec.readAdv s a) = hd s := rfl
+    rw [e0, e2, e3, h.deliv, e1, List.take_add, List.append_assoc]
+    rfl
+  · show match s.queue with | hh :: _ => s.readPos + min s.outCap (a.pos - s.readPos) ≤ hh.pos | [] => _
+    rw [hq]; exact hn
+
+/-- The finished head is removed. -/
+def popHead (s : State) (t : List Outbuf) : State := { s with queue := t, readPos := 0 }
+
+theorem popHead_frame (s : State) (t : List Outbuf) : RowFrame s (popHead s t) :=
+  ⟨rfl, rfl, rfl, rfl, rfl, rfl, rfl, rfl, rfl, rfl, rfl, rfl, fun _ => WSame.refl _⟩
+
+theorem pop_delivered {s : State} (h : DataInv s) (a : Outbuf) (t : List Outbuf) (hq : s.queue = a :: t)
+    (hfin : a.finished = true) (hrp : s.readPos = a.pos) :
+    a.blk = hd s ∧ hd s < s.blocks.length ∧ s.delivered = outOf s.blocks (hd s + 1) := by
+  have hc := h.consec
+  rw [hq] at hc
+  simp only [Consec] at hc
+  have hlen := h.lenLe
+  have hcl := h.curLe
+  have hlt : hd s < s.blocks.length := by
+    have : s.queue.length = t.length + 1 := by simp [hq]
+    unfold hd; omega
+  refine ⟨hc.1, hlt, ?_⟩
+  have hp := (h.fin a (by simp [hq]) hfin).1
+  have e1 : partialOut s = (blk s (hd s)).data := by
+    simp only [partialOut, hq]
+    rw [hc.1, hrp, hp, hc.1]
+    exact List.take_length
+  rw [h.deliv, e1, outOf_succ s.blocks (hd s) hlt]
+  rfl
+
+theorem DataInv.popGood {s : State} (h : DataInv s) (a : Outbuf) (t : List Outbuf) (hq : s.queue = a :: t)
+    (hfin : a.finished = true) (hrp : s.readPos = a.pos) (hend : a.finishRet = END) : DataInv (popHead s t) := by
+  obtain ⟨hab, hlt, hdel⟩ := pop_delivered h a t hq hfin hrp
+  have hc := h.consec
+  rw [hq] at hc
+  simp only [Consec] at hc
+  have hlen := h.lenLe
+  have hql : s.queue.length = t.length + 1 := by simp [hq]
+  have hhd' : hd (MtDec.popHead s t) = hd s + 1 := by
+    simp only [hd, MtDec.popHead]; unfold hd at *; omega
+  have hdz : s.directPos = 0 := by
+    by_cases e : s.directPos = 0
+    · exact e
+    · have := h.dirQ e; rw [hq] at this; cases this
+  have hmem : ∀ o ∈ t, o ∈ s.queue := fun o ho => by rw [hq]; exact List.mem_cons_of_mem _ ho
+  refine { wf := h.wf, curLe := h.curLe, lenLe := by simp only [MtDec.popHead]; omega,
+           consec := by rw [hhd']; exact hc.2, good := ?_, deliv := ?_,
+           posLe := fun o ho => h.posLe o (hmem o ho), readLe := ?_, fin := fun o ho => h.fin o (hmem o ho), wk := ?_,
+           distinct := h.distinct, free := h.free, freeNodup := h.freeNodup,
+           dirLe := by show s.directPos ≤ _; rw [hdz]; exact Nat.zero_le _, dirQ := fun x => absurd hdz x }
+  · intro j hj
+    rw [hhd'] at hj
+    by_cases e : j < hd s
+    · exact h.good j e
+    · have : j = hd s := by omega
+      subst this
+      have := (h.fin a (by simp [hq]) hfin).2
+      show (blk s (hd s)).ret = END
+      rw [← hab, ← this]; exact hend
+  · have e4 : (MtDec.popHead s t).delivered = s.delivered := rfl
+    have e5 : partialOut (MtDec.popHead s t) = [] := by
+      simp only [partialOut, MtDec.popHead]
+      cases t <;> simp [hdz]
+    rw [e4, hhd', e5, List.append_nil]; exact hdel
+  · show match (MtDec.popHead s t).queue with | hh :: _ => (MtDec.popHead s t).readPos ≤ hh.pos | [] => (MtDec.popHead s t).readPos = 0
+    simp only [MtDec.popHead]
+    split <;> simp
+  · intro i hi
+    have hwi := h.wk i hi
+    refine ⟨hwi.outLe, hwi.fillLe, ?_, hwi.pcInv, hwi.run⟩
+    intro hh
+    have h3 := hwi.has hh
+    refine ⟨h3.1, ?_, fun o ho e => h3.2.2 o (hmem o ho) e⟩
+    obtain ⟨o, ho, e⟩ := h3.2.1
+    rw [hq] at ho
+    rcases List.mem_cons.mp ho with rfl | ho
+    · have := (h3.2.2 o (by simp [hq]) e).1
+      rw [hfin] at this; cases this
+    · exact ⟨o, ho, e⟩
+
+theorem badPop {s : State} (h : DataInv s) (a : Outbuf) (t : List Outbuf) (hq : s.queue = a :: t)
+    (hfin : a.finished = true) (hrp : s.readPos = a.pos) (hend : a.finishRet ≠ END) :
+    BadPop (popHead s t) a.finishRet := by
+  obtain ⟨hab, hlt, hdel⟩ := pop_delivered h a t hq hfin hrp
+  have hret := (h.fin a (by simp [hq]) hfin).2
+  have hwf := blk_wf h a.blk
+  refine ⟨hend, by rw [hret]; exact ⟨hwf.1, hwf.2.1⟩, ?_⟩
+  have hbad : (s.blocks.getD (hd s) default).ret ≠ END := by
+    have : blk s (hd s) = s.blocks.getD (hd s) default := rfl
+    rw [← this, ← hab, ← hret]; exact hend
+  have := stRun_bad s.blocks (hd s) hlt h.good hbad
+  show (s.delivered, a.finishRet) = stRun s.blocks
+  rw [this, hdel, outOf_succ s.blocks (hd s) hlt, hret, hab]
+  rfl
+
+theorem outqRead_eq (s : State) :
+    outqRead s = match s.queue with
+      | [] => (s, OK)
+      | h :: t => if (!h.finished || decide ((readAdv s h).readPos < h.pos)) = true then (readAdv s h, OK)
+                  else (popHead (readAdv s h) t, h.finishRet) := by
+  unfold outqRead
+  split <;> rename_i hq <;> (conv => rhs; rw [hq]) <;> rfl
+
+/-- Result of one lzma_outq_read. -/
+theorem outqRead_spec {s : State} (h : DataInv s) :
+    RowFrame s (outqRead s).1 ∧
+    ((outqRead s).2 = OK ∨ (outqRead s).2 = END → DataInv (outqRead s).1) ∧
+    ((outqRead s).2 ≠ OK → (outqRead s).2 ≠ END → BadPop (outqRead s).1 (outqRead s).2) := by
+  rw [outqRead_eq]
+  split
+  · exact ⟨RowFrame.refl s, fun _ => h, fun x => absurd rfl x⟩
+  · rename_i a t hq
+    have h1 := h.readAdv a t hq
+    have hq1 : (readAdv s a).queue = a :: t := hq
+    split
+    · exact ⟨readAdv_frame s a, fun _ => h1, fun x => absurd rfl x⟩
+    · rename_i hc
+      simp only [Bool.or_eq_true, Bool.not_eq_true', decide_eq_true_eq, not_or, Bool.not_eq_false, Nat.not_lt] at hc
+      have hr := h1.readLe
+      rw [hq1] at hr
+      have hrp : (readAdv s a).readPos = a.pos := Nat.le_antisymm hr hc.2
+      refine ⟨(readAdv_frame s a).trans (popHead_frame _ t), ?_, ?_⟩
+      · intro hx
+        rcases hx with hx | hx
+        · exfalso
+          have := (h1.fin a (by simp [hq1]) hc.1).2
+          have hwf := blk_wf h1 a.blk
+          exact hwf.1 (this ▸ hx)
+        · exact h1.popGood a t hq1 hc.1 hrp hx
+      · intro _ hne
+        exact badPop h1 a t hq1 hc.1 hrp hne
+
+/-- The inner read loop: either it ends with LZMA_OK in a state satisfying the data invariant, or it removed a failed
+    Block and returns that Block's verdict. -/
+theorem readLoop_spec (fuel : Nat) : ∀ {s : State}, DataInv s →
+    RowFrame s (readLoop fuel s).1 ∧ (readLoop fuel s).2 ≠ END ∧
+    ((readLoop fuel s).2 = OK → DataInv (readLoop fuel s).1) ∧
+    ((readLoop fuel s).2 ≠ OK → BadPop (readLoop fuel s).1 (readLoop fuel s).2) := by
+  induction fuel with
+  | zero => intro s h; exact ⟨RowFrame.refl s, by simp [readLoop, OK, END], fun _ => h, fun x => absurd rfl x⟩
+  | succ fuel ih =>
+    intro s h
+    obtain ⟨f1, d1, b1⟩ := outqRead_spec h
+    simp only [readLoop]
+    split
+    · rename_i hend
+      have hD := (d1 (Or.inr hend)).enablePartialHead
+      obtain ⟨f2, r2, d2, b2⟩ := ih hD
+      exact ⟨(f1.trans (enablePartialHead_spec _).1).trans f2, r2, d2, b2⟩
+    · rename_i hne
+      refine ⟨f1, hne, fun hok => d1 (Or.inl hok), fun hnok => b1 hnok hne⟩
+
 end XzVerif.MtDec
